@@ -86,7 +86,7 @@ func (ex *Exec) execCommon(st *State, c *ssa.CallCommon, site ssa.Value, pos tok
 						label = fmt.Sprintf("%d", i+1)
 					}
 					o := vc.oblige("assert", fmt.Sprintf("assert:%s@%s#%s", ex.conName(), callee.Name(), label), st.guard, t, ex.pos(pos))
-					o.Note = cl.Src
+					o.SetNote(cl.Src)
 					ex.beforeSeen[callee.Name()] = true
 				}
 			}
@@ -105,7 +105,11 @@ func (ex *Exec) execCommon(st *State, c *ssa.CallCommon, site ssa.Value, pos tok
 		}
 		if ex.P.isPure(name) {
 			evalArgs()
-			return ex.pureCall(st, name, sig, args)
+			rs := ex.pureCall(st, name, sig, args)
+			if name == "fmt.Errorf" || name == "errors.New" {
+				vc.assume(st.guard, Not(Eq(rs[0], T{"VNil", SVal})))
+			}
+			return rs
 		}
 		if callee.Blocks == nil && callee.Synthetic == "" && false {
 			_ = callee
@@ -403,7 +407,7 @@ func (ex *Exec) callByContract(st *State, callee *ssa.Function, con *Contract, a
 			label = fmt.Sprintf("%d", i+1)
 		}
 		o := vc.oblige("pre", fmt.Sprintf("pre:%s->%s#%s", ex.conName(), con.Name, label), st.guard, t, ex.pos(pos))
-		o.Note = r.Src
+		o.SetNote(r.Src)
 		vc.assume(st.guard, t)
 	}
 	for _, h := range con.HeldAtEntry {
